@@ -1282,8 +1282,14 @@ func builtinIsTruthy(_ *lisp.LEnv, _ *lisp.LVal) *lisp.LVal {
 			if input.Cells[0].Cells[0].Int > 0 {
 				return lisp.Nil()
 			}
-		case lisp.LSortMap, lisp.LBytes:
-			if len(input.Cells) > 0 {
+		case lisp.LSortMap:
+			// A sorted map keeps its entries behind Native, not in Cells.
+			if input.Map().Len() > 0 {
+				return lisp.Nil()
+			}
+		case lisp.LBytes:
+			// So does a bytes value.
+			if len(input.Bytes()) > 0 {
 				return lisp.Nil()
 			}
 		case lisp.LString:
